@@ -18,9 +18,10 @@ import json
 import os as _os
 import posixpath
 import random
+import re
 from pathlib import PurePosixPath
 
-from ..core import MachineryError, emit_behaviours, model_check, pool_map, run_tlc, sany, validate_traces
+from ..core import SPEC, MachineryError, model_check, pool_map, run_tlc, sany, validate_traces
 from ..env import LoggerStub, boot
 
 META = {
@@ -70,6 +71,8 @@ class FakeFS:
         self.observer = None     # called after every op: observer(event)
         self.fired = []
         self.fdcount = 100
+        self.buffered = False    # True: written data reaches the disk only at flush()/close() (lost in a crash)
+        self.handles = {}        # path -> open writable handles (they follow the file when it is renamed)
 
     # -- fault window
     def arm(self, plan=None):
@@ -160,12 +163,17 @@ class FakeFS:
             raise IsADirectoryError(errno.EISDIR, 'Is a directory', b)
         self._need_parent(b)
         self.files[b] = self.files.pop(a)
+        for h in self.handles.pop(a, []):
+            h.name = b
+            self.handles.setdefault(b, []).append(h)
 
     def _remove(self, p):
         p = str(p)
         if p not in self.files:
             raise FileNotFoundError(errno.ENOENT, 'No such file or directory', p)
         del self.files[p]
+        for h in self.handles.pop(p, []):
+            h.name = None      # unlinked: data written from now on is invisible
 
     def _open(self, p, mode):
         p = str(p)
@@ -194,16 +202,26 @@ class FakeFile:
         self.fd = fs.fdcount
         fs.fdcount += 1
         self.writable_ = any(c in mode for c in 'wax+')
+        self.buf = b''
+        if self.writable_:
+            fs.handles.setdefault(self.name, []).append(self)
 
     def _apply_write(self, data):
         b = data if self.binary else data.encode(self.encoding)
-        if self.name in self.fs.files:      # an unlinked/renamed open file: data goes nowhere visible
+        if self.fs.buffered:
+            self.buf += bytes(b)
+        elif self.name in self.fs.files:
             self.fs.files[self.name] += bytes(b)
+
+    def _sync(self):
+        if self.buf and self.name in self.fs.files:
+            self.fs.files[self.name] += self.buf
+        self.buf = b''
 
     def write(self, data):
         if self.closed:
             raise ValueError('I/O operation on closed file.')
-        self.fs.op('write', self.name, lambda: self._apply_write(data))
+        self.fs.op('write', self.name or '(unlinked)', lambda: self._apply_write(data))
         return len(data)
 
     def writelines(self, lines):
@@ -229,7 +247,7 @@ class FakeFile:
 
     def flush(self):
         if self.writable_ and not self.closed:
-            self.fs.op('flush', self.name, lambda: None)
+            self.fs.op('flush', self.name or '(unlinked)', self._sync)
 
     def fileno(self):
         return self.fd
@@ -257,7 +275,9 @@ class FakeFile:
             return
         self.closed = True          # like a real file: closed even when close() reports an error
         if self.writable_:
-            self.fs.op('close', self.name, lambda: None)
+            if self in self.fs.handles.get(self.name, []):
+                self.fs.handles[self.name].remove(self)
+            self.fs.op('close', self.name or '(unlinked)', self._sync)
 
     def __enter__(self):
         return self
@@ -379,7 +399,12 @@ class FakeOs:
     unlink = remove
 
     def fsync(self, fd):
-        return _fs().op('fsync', 'fd%s' % fd, lambda: None)
+        def sync():
+            for hs in _fs().handles.values():
+                for h in hs:
+                    if h.fd == fd:
+                        h._sync()
+        return _fs().op('fsync', 'fd%s' % fd, sync)
 
     fdatasync = fsync
 
@@ -453,7 +478,7 @@ def canon(obj):
 class World:
     """a real PersistentMixin module class over chosen datatypes, living on a FakeFS"""
 
-    def __init__(self, types, auto=(), haswrite=(), fs=None):
+    def __init__(self, types, auto=(), haswrite=(), fs=None, buffered=False):
         self.fp = patch_persistent()
         from frappy.modules import Module
         from frappy.params import Parameter
@@ -488,6 +513,7 @@ class World:
         cls = type('Mod', (self.fp.PersistentMixin, Module), ns)
         self.cls = cls
         self.fs = fs or FakeFS()
+        self.fs.buffered = buffered
         self.m = None
         self.under_construction = None
         self.snapids = {}        # canonical json text of a stored object -> id
@@ -771,7 +797,7 @@ class Replayer:
     """executes abstract actions of Gen_Persistent on a World and projects the state (alpha)"""
 
     def __init__(self, types, auto, hw, variant=0):
-        self.w = World(types, auto=[_pn(P) for P in auto], haswrite=[_pn(P) for P in hw])
+        self.w = World(types, auto=[_pn(P) for P in auto], haswrite=[_pn(P) for P in hw], buffered=bool(variant >> 4 & 1))
         self.variant = variant
         self.concrete = {}
 
@@ -1127,7 +1153,7 @@ def random_history(arg):
     seed, nsteps, corrupting = arg
     rnd = random.Random(seed)
     types, auto, hw = _rand_world(rnd)
-    w = World(types, auto, hw)
+    w = World(types, auto, hw, buffered=rnd.random() < 0.5)
     log = []
 
     def rcfg():
@@ -1159,11 +1185,11 @@ def random_history(arg):
 
 def fault_sweep(arg):
     """a crash / I/O error at EVERY concrete file-system call of a save (auto save, explicit save, start-up save)"""
-    types, auto, hw, where = arg
+    types, auto, hw, where, buffered = arg
     res = []
 
     def scenario(plan_at, plan):
-        w = World(types, auto, hw)
+        w = World(types, auto, hw, buffered=buffered)
         pl = {k: (plan if k == plan_at else None) for k in ('start', 'change', 'save')}
         win = None
         if w.start({}, pl['start']) == 'ok':
@@ -1194,7 +1220,7 @@ def fault_sweep(arg):
     for i in range(n):
         for kind in (('crash',) if where == 'start' else ('crash', 'ioerror')):
             w, _ = scenario(where, {i: kind})
-            res.append({'gen': ['fault_sweep', [list(types), list(auto), list(hw), where], i, kind],
+            res.append({'gen': ['fault_sweep', [list(types), list(auto), list(hw), where, buffered], i, kind],
                         'types': w.types, 'trace': compress(w.trace)})
     return res
 
@@ -1260,6 +1286,19 @@ def corruption_sweep(arg):
 
 
 # ============================================================================ the check
+
+def _emit(cfg, timeout=1100):
+    """Gen_Persistent behaviour emission (like core.emit_behaviours, with a faster reader for the big output)"""
+    r = run_tlc('Gen_Persistent', cfg, workers=1, timeout=timeout)
+    if r.violated or not r.ok:
+        raise MachineryError(f'behaviour emission Gen_Persistent/{cfg} failed: {r.violated or r.error}\n{r.out[-2000:]}')
+    behs = []
+    pat = '<<"BEH", "'
+    for line in r.out.splitlines():
+        if line.startswith(pat) and line.endswith('">>'):
+            behs.append(json.loads(line[len(pat):-3].replace('\\"', '"').replace('\\\\', '\\')))
+    return r, behs
+
 
 def _actions(beh):
     return [{k: v for k, v in s.items() if k not in ('exp', 'alt')} for s in beh]
@@ -1424,6 +1463,12 @@ def _chunks(n, size):
     return [(lo, min(n, lo + size)) for lo in range(0, n, size)]
 
 
+# (Gen configuration, datatype shapes per behaviour, every n-th execution also goes to trace validation)
+GEN_PLAN = {'quick': [('Gen_Persistent', 1, 5), ('Gen_PersistentC', 2, 5)],
+            'thorough': [('Gen_Persistent', 2, 40), ('Gen_PersistentB', 3, 20), ('Gen_PersistentM', 1, 40),
+                         ('Gen_PersistentC', 6, 20)]}
+
+
 def run(chk):
     quick = chk.tier == 'quick'
     chk.rule = ('spec->code: every behaviour of Gen_Persistent (start/writeinit/change/save/corrupt/restart with a '
@@ -1459,9 +1504,10 @@ def run(chk):
     with ThreadPoolExecutor(6) as ex:
         mc = ex.submit(model_check, 'Persistent', f'MC_Persistent_{t}.cfg', timeout=1100)
         asimp = ex.submit(run_tlc, 'Persistent', 'MC_Persistent_asimplemented.cfg', timeout=300)
-        em = {c: ex.submit(emit_behaviours, 'Gen_Persistent', c, maximal_only=False, timeout=1100)
-              for c in (f'Gen_Persistent_{t}.cfg', f'Gen_Persistent_{t}_dev.cfg',
-                        f'Gen_PersistentC_{t}.cfg', f'Gen_PersistentC_{t}_dev.cfg')}
+        em = {}
+        for name, shapes_per, every in GEN_PLAN[t]:
+            for c in (f'{name}_{t}.cfg', f'{name}_{t}_dev.cfg'):
+                em[c] = ex.submit(_emit, c)
         # 1 design check
         chk.add_tlc(mc.result())
         r = asimp.result()
@@ -1471,10 +1517,10 @@ def run(chk):
         chk.notes['phase_s'] = {'mc': round(_t.time() - t0, 1)}
         # 2 spec -> code
         bag = []
-        _gen_pass(chk, 'faults', f'Gen_Persistent_{t}.cfg', 2 if quick else 3, 1 if quick else 2, 9 if quick else 40,
-                  bag, em[f'Gen_Persistent_{t}.cfg'], em[f'Gen_Persistent_{t}_dev.cfg'])
-        _gen_pass(chk, 'corrupt', f'Gen_PersistentC_{t}.cfg', 2, 2 if quick else 6, 5 if quick else 20,
-                  bag, em[f'Gen_PersistentC_{t}.cfg'], em[f'Gen_PersistentC_{t}_dev.cfg'])
+        for name, shapes_per, every in GEN_PLAN[t]:
+            cfg = f'{name}_{t}.cfg'
+            nchunks = int(re.search(r'NChunks = (\d+)', (SPEC / cfg).read_text()).group(1))
+            _gen_pass(chk, name, cfg, nchunks, shapes_per, every, bag, em.pop(cfg), em.pop(f'{name}_{t}_dev.cfg'))
 
     chk.notes['phase_s']['gen_replay'] = round(_t.time() - t0, 1)
     t0 = _t.time()
@@ -1487,7 +1533,7 @@ def run(chk):
     for k in range(2 if quick else 12):
         types, auto, hw = _rand_world(rnd, 3)
         for where in ('change', 'save', 'start'):
-            sweeps.append((types, auto or ['p1'], hw, where))
+            sweeps.append((types, auto or ['p1'], hw, where, k % 2 == 1))
     for part in pool_map(fault_sweep, sweeps):
         items += part
     jobs = []
@@ -1523,8 +1569,8 @@ def replay(chk, rep):
     if gen[0] == 'random_history':
         item = random_history(tuple(gen[1]))
     elif gen[0] == 'fault_sweep':
-        types, auto, hw, where = gen[1]
-        item = [x for x in fault_sweep((tuple(types), auto, hw, where)) if x['gen'][2:] == gen[2:]][0]
+        types, auto, hw, where, buffered = gen[1]
+        item = [x for x in fault_sweep((tuple(types), auto, hw, where, buffered)) if x['gen'][2:] == gen[2:]][0]
     elif gen[0] == 'corruption':
         w = World(tuple(gen[1]))
         w.fs.dirs.add(posixpath.dirname(TARGET))
